@@ -1,5 +1,6 @@
 #include <cassert>
 #include <igris/sync/syslock.h>
+#include <igris/util/verif_point.h>
 #include <mutex>
 
 #if __has_include(<unistd.h>)
@@ -22,6 +23,7 @@ void system_lock_impl(struct location loc)
 void system_lock()
 {
 #endif
+    IGRIS_VERIF_POINT_OBJ("syslock.lock", &mtx);
     mtx.lock();
 
 #if IGRIS_SYSLOCK_DEBUG
@@ -58,6 +60,7 @@ void system_unlock_impl(struct location loc)
 void system_unlock()
 {
 #endif
+    IGRIS_VERIF_POINT_OBJ("syslock.unlock", &mtx);
     --count;
     assert(count >= 0);
 
@@ -73,6 +76,7 @@ struct syslock_save_pair system_lock_save()
     auto ret = syslock_save_pair{count, 0};
     assert(count != 0);
 
+    IGRIS_VERIF_POINT_OBJ("syslock.save", &mtx);
     while (count--)
     {
         mtx.unlock();
@@ -83,6 +87,7 @@ struct syslock_save_pair system_lock_save()
 
 void system_lock_restore(struct syslock_save_pair save)
 {
+    IGRIS_VERIF_POINT_OBJ("syslock.restore", &mtx);
     mtx.lock();
 
     count = save.count;
